@@ -70,6 +70,7 @@ TRUSTED_EXTRA = [
 
 CORPUS = os.path.join(VERIF, "harness", "corpus")
 KNOWN = {
+    "restart_mislabel": "C15/restart_finalize_mislabel:completed->failed",
     "engine": "C15/stays_running:engine_side_failure",
     "retries": "C15/stays_running:status_write_retries_exhausted",
     "append": "C15/stays_running:append_event_fault",
@@ -241,7 +242,7 @@ def _last_fault(res: S.CaseResult) -> tuple[str, Any, int] | None:
 def monitor(res: S.CaseResult) -> list[Violation]:
     vs: list[Violation] = []
     case = res.case
-    replay = {k: case.get(k) for k in ("store", "idle_timeout", "backoff", "spec", "fault", "seed")}
+    replay = {k: case.get(k) for k in ("store", "idle_timeout", "backoff", "spec", "fault", "seed", "restart", "restart_fault") if k in case}
     replay["actions"] = res.actions
 
     def bad(sig: str, what: str) -> None:
@@ -315,6 +316,26 @@ def monitor(res: S.CaseResult) -> list[Violation]:
                 bad("wrong_error:timeout", f"stored error {rec['error']!r}")
             elif res.outcome == "step_failure" and isinstance(res.outcome_detail, tuple) and rec["error"] != res.outcome_detail[1]:
                 bad("wrong_error:step_failure", f"stored error {rec['error']!r} but the run raised {res.outcome_detail[1]!r}")
+    # --- after a crash and restart: a terminal row is left alone; a row whose terminal status write was lost
+    #     (or whose run died inside the engine) is finalised from the persisted ticks
+    rr = res.record_restart
+    if rr is not None:
+        if rec["status"] in S.TERMINAL:
+            if rr["status"] != rec["status"]:
+                bad(f"restart_changed_terminal:{rec['status']}->{rr['status']}", "the restart rewrote a terminal row")
+        else:
+            want = None  # (an engine-side failure is not in the ticks: the restart resumes the run, which dies again)
+            if res.outcome == "store_fault" and lf is not None and lf[0] == "uhs" and lf[1][1] in S.TERMINAL:
+                want = lf[1][1]
+            if want is not None and rr["status"] != want:
+                if case.get("restart_fault") and rr["status"] == "failed":
+                    bad(f"restart_finalize_mislabel:{want}->failed", f"a transient store failure during _on_server_start's finalisation "
+                        f"left the row failed with error {rr['error']!r} although the replayed run ended {want}")
+                else:
+                    bad(f"restart_not_finalized:{res.outcome}:expected={want}:got={rr['status']}",
+                        "after the restart the row does not carry the status of the replayed exit command")
+            elif want == "completed" and not rr["has_result"]:
+                bad("restart_missing_result", "finalised as completed without a result")
     # --- never back to running once terminal (same run), at any point of the execution incl. after the idle timers fired
     seen_terminal = False
     for (rid, st) in res.status_trace:
@@ -370,6 +391,21 @@ def known_cases() -> list[tuple[str, dict]]:
         out.append(("retries", {"store": store, "spec": _one([["ret", "stop"]]), "fault": {"kind": "uhs_terminal", "k": 3}}))
         out.append(("append", {"store": store, "spec": _one([["ret", "stop"]]), "fault": {"kind": "app_at", "k": 1, "at": 0}}))
         out.append(("idle", {"store": store, "idle_timeout": 1000.0, "spec": _one([["ret", "none"]]), "fault": {"kind": "idle_uhs", "k": 1}}))
+        out.append(("restart_mislabel", {"store": store, "spec": _one([["ret", "stop"]]), "fault": {"kind": "uhs_terminal", "k": 3},
+                                         "restart": True, "restart_fault": 1}))
+    return out
+
+
+def restart_cases() -> list[dict]:
+    """the terminal status write is lost (retries exhausted) or the run dies inside the engine; then the process restarts"""
+    out = []
+    specs = outcome_specs()
+    for store in ("memory", "sqlite"):
+        for name in ("success", "step_failure", "idle_then_cancel", "timeout", "handled_failure"):
+            out.append({"store": store, "spec": specs[name], "fault": {"kind": "uhs_terminal", "k": 3}, "restart": True, "seed": 2})
+        out.append({"store": store, "spec": _one([["fail_always", 7], ["ret", "stop"]], {"kind": "raises"}), "restart": True})
+        out.append({"store": store, "spec": specs["success"], "restart": True})
+        out.append({"store": store, "spec": specs["cancel"], "restart": True, "idle_timeout": 1000.0})
     return out
 
 
@@ -438,6 +474,10 @@ def _search(env: Env, out: Outcome, n: int) -> None:
                 out.violations += monitor(run_one(case, "corpus"))
     for case in _load_corpus():
         out.violations += monitor(run_one(case, "corpus"))
+    for case in restart_cases():
+        res = run_one(case, "restart")
+        out.count(f"run:restart:{res.outcome}:{res.record and res.record['status']}->{res.record_restart and res.record_restart['status']}")
+        out.violations += monitor(res)
     for name, case in known_cases():
         res = run_one(case, "witness")
         vs = monitor(res)
